@@ -69,6 +69,56 @@ pub fn check_history(depth: u8, full: bool, cap: usize, pushes: &[u64], part: &m
   }
 }
 
+
+/// A long history given as runs (start, length) of consecutive cells pushed in order, followed by
+/// single extra cells: executed on the real builder, compared with the range model WITHOUT
+/// materialising the pushes in the replay file.
+pub fn check_runs(depth: u8, full: bool, cap: usize, runs: &[(u64, u64)], part: &mut Part) -> Option<Viol> {
+  let api = "BMOCBuilderFixedDepth";
+  let rv = runs.to_vec();
+  let r = guarded(move || {
+    let mut b = BMOCBuilderFixedDepth::with_capacity(depth, full, cap);
+    for &(s, l) in &rv {
+      for h in s..s + l {
+        b.push(h);
+      }
+    }
+    b.to_bmoc()
+  });
+  let case = json!({"kind": "runs", "depth": depth, "is_full": full, "capacity": cap, "runs": runs.iter().map(|r| json!([r.0.to_string(), r.1.to_string()])).collect::<Vec<_>>()});
+  let mk = |kind: &str, expected: String, actual: String| Some(Viol { api: api.into(), kind: kind.into(), case: case.clone(), expected, actual });
+  let res = match r {
+    Ok(Some(r)) => r,
+    Ok(None) => return mk("nothing-returned", "a BMOC".into(), "None".into()),
+    Err(m) => return mk("panic", "a BMOC".into(), format!("panic: {}", m)),
+  };
+  part.validated += 1;
+  let st = if full { FULL } else { PARTIAL };
+  let mut rs: Vec<(u64, u64)> = runs.iter().map(|&(s, l)| (s, s + l)).collect();
+  rs.sort();
+  let mut ranges: Vec<(u64, u64, u8)> = vec![];
+  for (s, e) in rs {
+    if let Some(l) = ranges.last_mut() {
+      if l.1 >= s {
+        l.1 = l.1.max(e);
+        continue;
+      }
+    }
+    ranges.push((s, e, st));
+  }
+  let expected = RangeMap { depth, ranges };
+  let out = Bm::from_impl(&res);
+  part.outcome(hash64(&[out.entries.len() as u64, out.entries.first().map(|e| e.1).unwrap_or(0), out.entries.last().map(|e| e.1).unwrap_or(0)]));
+  let got = match out.to_map() {
+    Ok(m) => m,
+    Err(e) => return mk("malformed-result", expected.describe(), format!("{} entries ({})", out.entries.len(), e)),
+  };
+  if out.depth_max != depth || got != expected {
+    return mk("wrong-map", expected.describe(), format!("{} entries = {}", out.entries.len(), got.describe()));
+  }
+  None
+}
+
 fn seq_case(op: &str, bm: &Bm, new_depth: Option<u8>) -> Value {
   json!({"kind": "sequence", "op": op, "input": bm.to_json(), "new_depth": new_depth})
 }
@@ -176,6 +226,7 @@ pub fn run(ctx: &Ctx) -> i32 {
     Bulk(u8, u64),
     Sweep(u64, u64),
     Stairs(usize, usize),
+    Pow4(u32),
   }
   let mut jobs: Vec<Job> = (0..njobs_hist).map(Job::Hist).collect();
   let run_depths: Vec<u8> = if quick { vec![3] } else { vec![3, 4, 6] };
@@ -235,6 +286,11 @@ pub fn run(ctx: &Ctx) -> i32 {
       jobs.push(Job::Stairs(lo, (lo + 64).min(stairs.len())));
       lo += 64;
     }
+  }
+  // runs whose length is next to a power of four, from an aligned start (every k up to 11 / 12):
+  // the packing arithmetic of the builder (log4 of the run length) changes there
+  for k in 1..=(if quick { 11u32 } else { 12 }) {
+    jobs.push(Job::Pow4(k));
   }
   let chunk = 256;
   let mut lo = 0;
@@ -455,6 +511,26 @@ pub fn run(ctx: &Ctx) -> i32 {
           }
         }
       }
+      Job::Pow4(k) => {
+        let d = ((*k + 1) as u8).max(3).min(29);
+        let len0 = 1u64 << (2 * *k);
+        let nh = n_hash(d);
+        // an aligned start in a generic tile, and an unaligned one
+        let aligned = (37 % (nh / len0).max(1)) * len0;
+        for (start, dl) in [(aligned, -3i64), (aligned, -2), (aligned, -1), (aligned, 0), (aligned, 1), (aligned + 1, -1), (aligned + 1, 0)] {
+          let len = (len0 as i64 + dl) as u64;
+          if len == 0 || start + len + 8 > nh {
+            continue;
+          }
+          for full in [true, false] {
+            part.stratum("power-of-four-runs", 1, 1);
+            // the run, then a cell after a hole (lost if the cursor overshoots)
+            if let Some(v) = check_runs(d, full, 20_000_000, &[(start, len), (start + len + 5, 1)], &mut part) {
+              part.viol(v);
+            }
+          }
+        }
+      }
       Job::Stairs(lo, hi) => {
         for bm in &stairs[*lo..*hi] {
           part.stratum("merge-cascade-sequences", 1, 1);
@@ -498,6 +574,7 @@ pub fn run(ctx: &Ctx) -> i32 {
       "bulk": "per depth (6, 9 quick; + 12, 18, 29 thorough) a deterministic multiset of ~9000 pushes (60 clusters, a whole aligned coarse cell of 4096 cells, an unaligned run of 1500, 400 repeats) in 3 orders x 5 capacities x 2 flags",
       "repush_size_sweep": format!("a whole tile then n of its cells again + 2 cells after it, every n in 1..={}, capacity = tile size (drain = or of the packed tile with n covered entries), both flags and the reverse arrival order", sweep_max),
       "merge_cascades": format!("{} staircase sequences: every cascade length 1..=29 (3k+1 entries), 4 child paths, all full / one partial stair / partial last cell; pack and lower depths 0..3", stairs.len()),
+      "power_of_four_runs": "runs of 4^k - 3 .. 4^k + 1 consecutive cells (k = 1..=11 quick / 12 thorough) from an aligned and an unaligned start, followed by a cell after a hole, both flags, one buffer",
       "small": "all subsets of the depth-0 cells, of the depth-1... (12 cells) and of 11 cells of depth 29, both orders; all rotations of the 48 depth-1 cells",
       "sequences": format!("{} valid entry sequences (universe depth 2 chain-first with partial flags and unpacked shapes{}) x pack and every lower depth", all_seq.len(), if quick { "" } else { ", depth 3 chain-last" })}),
     "every push history / run / subset / entry sequence listed in bounds",
@@ -508,6 +585,10 @@ pub fn run(ctx: &Ctx) -> i32 {
 
 pub fn replay(case: &Value) -> Option<Viol> {
   let mut part = Part::new();
+  if case["kind"] == "runs" {
+    let runs: Vec<(u64, u64)> = case["runs"].as_array().unwrap().iter().map(|r| (u64_from_json(&r[0]), u64_from_json(&r[1]))).collect();
+    return check_runs(case["depth"].as_u64().unwrap() as u8, case["is_full"].as_bool().unwrap(), case["capacity"].as_u64().unwrap() as usize, &runs, &mut part);
+  }
   if case["kind"] == "history" {
     let pushes: Vec<u64> = case["pushes"].as_array().unwrap().iter().map(u64_from_json).collect();
     check_history(case["depth"].as_u64().unwrap() as u8, case["is_full"].as_bool().unwrap(), case["capacity"].as_u64().unwrap() as usize, &pushes, &mut part)
